@@ -58,6 +58,11 @@ pub fn catalogue(w: &World, tier: &str, seed: u64, reps: usize) -> Vec<FaultCase
                     // the small configurations cover the other fields; here: every chunk of garbled gates
                     continue;
                 }
+                let ops_cfg = cfg.name.ends_with("-ops");
+                if ops_cfg && m.label != "labels" {
+                    // operand-position circuit: only the labels, but every one of them
+                    continue;
+                }
                 let s = seed ^ ((ci as u64) << 40) ^ ((c as u64) << 32) ^ ((m.idx_from as u64) << 8);
                 match m.label.as_str() {
                     "wire shares" | "output wire shares" | "lambda" => {
@@ -84,8 +89,8 @@ pub fn catalogue(w: &World, tier: &str, seed: u64, reps: usize) -> Vec<FaultCase
                         if slots.len() >= 2 {
                             push(one(c, m.to, &m.label, m.k, What::Tree(TreeMut { path: vec![], op: MutOp::SwapElems(slots[0], slots[slots.len() - 1]) }), s ^ 77), "swap-two-labels".to_string(), &m.label, vec![m.to], false, None);
                         }
-                        for (pi, i) in pick(&slots, thorough).into_iter().enumerate() {
-                            let pc = if pi == 0 { "first" } else { "later" };
+                        for (pi, i) in pick(&slots, thorough || ops_cfg).into_iter().enumerate() {
+                            let pc = if ops_cfg { format!("slot{pi}") } else if pi == 0 { "first".to_string() } else { "later".to_string() };
                             push(one(c, m.to, &m.label, m.k, What::Tree(TreeMut { path: vec![i, 0], op: MutOp::FlipBit }), s ^ i as u64), format!("flip-label:{pc}"), &m.label, vec![m.to], false, None);
                             push(one(c, m.to, &m.label, m.k, What::Tree(TreeMut { path: vec![i, 0], op: MutOp::XorDeltaOf(c) }), s ^ i as u64), format!("other-valid-label:{pc}"), &m.label, vec![m.to], true, None);
                         }
@@ -140,7 +145,7 @@ pub fn catalogue(w: &World, tier: &str, seed: u64, reps: usize) -> Vec<FaultCase
             }
             // garbler encrypts a wrong share bit into every row (MACs untouched): only the
             // evaluator's MAC check can notice
-            if c != cfg.p_eval {
+            if c != cfg.p_eval && !cfg.name.ends_with("-ops") {
                 let plan = FaultPlan { corrupt: c, actions: vec![], crash: None, seed: seed ^ 0x7a9 ^ ((ci as u64) << 40) ^ ((c as u64) << 32) };
                 push(plan, "tap:garble.row_bit:all-rows".into(), "tap:garble.row_bit", vec![cfg.p_eval], false, Some(("garble.row_bit".into(), usize::MAX)));
             }
@@ -150,7 +155,7 @@ pub fn catalogue(w: &World, tier: &str, seed: u64, reps: usize) -> Vec<FaultCase
 }
 
 pub fn build(tier: &str, seed: u64) -> World {
-    let mut w = World::new(tier, seed);
+    let mut w = World::with_extra(tier, seed, crate::faults::operand_configs(seed));
     w.cases = catalogue(&w, tier, seed, if tier == "thorough" { 3 } else { 2 });
     w
 }
@@ -161,7 +166,7 @@ pub fn child(tier: &str, seed: u64, a: shard::ShardArgs) {
 
 pub fn run(tier: &str, seed: u64) -> i32 {
     let mut rep = Report::new("C03", tier, seed, "fault_enumeration");
-    rep.rule = "catalogue of forged authenticated online-phase fields: mask-share bit / MAC in 'wire shares' and 'output wire shares', input labels (random flip and the other valid label label^delta_c), bytes of all four rows of a garbled gate (body and Poly1305 tag), a wrong share bit garbled into every row (tap), the evaluator's revealed value / label in 'lambda', masked inputs differing per recipient and altered echo hashes (n=3); per register position (first/mid/last quick, all thorough), corrupted role, victim role, n in {2,3}. Oracle: the honest recipient that consumes the field returns Err. distinct = (configuration, corrupted party, victim, label, forged field class); non-trivial = the forged field was delivered to the victim".into();
+    rep.rule = "catalogue of forged authenticated online-phase fields: mask-share bit / MAC in 'wire shares' and 'output wire shares', input labels (random flip and the other valid label label^delta_c; every label of a circuit whose input wires are used only as first resp. only as second operand of AND gates), bytes of all four rows of a garbled gate (body and Poly1305 tag), a wrong share bit garbled into every row (tap), the evaluator's revealed value / label in 'lambda', masked inputs differing per recipient and altered echo hashes (n=3); per register position (first/mid/last quick, all thorough), corrupted role, victim role, n in {2,3}. Oracle: the honest recipient that consumes the field returns Err. distinct = (configuration, corrupted party, victim, label, forged field class); non-trivial = the forged field was delivered to the victim".into();
     rep.assumptions = vec!["consumption is decided by the generator: fault circuits route every input into an AND gate and an output; all four rows of a gate are altered at the same byte".into()];
     let w = build(tier, seed);
     let mut hist = std::collections::BTreeMap::new();
